@@ -55,6 +55,35 @@ CHECKS.update({
         note='clock stub; max_history >= 1 or None; sync=True exercised in a 2-rank simulated world', ref='DESIGN.md 3/C20'),
 })
 
+CHECKS.update({
+    'C04': dict(
+        text='The real KFACPreconditioner (hooks, micro-batch accumulation, EMA, averaged factor all-reduce) runs on 1-2 (3) simulated ranks '
+             'with symbolic activations/output-gradients per rank and micro-batch, symbolic previous factors, decay (constant or callable), '
+             'loss scale, step count and factor-update interval. z3 proves A and G equal decay*prev+(1-decay)*M with M the mean second moment '
+             'of the bias-augmented / patch-unfolded rows (identity init when fresh), symmetry, dtype tag, no change on non-update steps '
+             'and across interleaved eval-mode passes. Linear (2-D/3-D inputs) and padded/strided conv layers.',
+        note='exact reals; PSD follows from the proved recurrence with a Gram-matrix M; distributed layer is the simulator contract',
+        ref='DESIGN.md 3/C04'),
+    'C10': dict(
+        text='Model trees mixing registered, skipped, frozen and unsupported modules with symbolic parameters, buffers and gradients; after the '
+             'real step() z3/identity checks prove parameters, buffers and unregistered gradients are the same unwritten objects with unchanged '
+             'values, registered gradients keep shape/dtype tag/device/contiguity, all division and sqrt side conditions hold, hooks return None '
+             'without writing to their arguments, and eval-mode passes (also in the middle of an accumulation window) change no observable state.',
+        note='finite = no division by zero / negative root in the reals; autograd transparency of None-returning hooks is torch contract; '
+             'in-place writes observed through shim version counters', ref='DESIGN.md 3/C10'),
+    'C14': dict(
+        text='fill_triu(get_triu(X))==X for a symbolic symmetric X (position-revealing symbols) for every n<=16 (48), contiguous and transposed '
+             'inputs, three dtype tags; symmetric allreduce/broadcast/allreduce_bucketed equal their dense counterparts on the simulator; '
+             'rejection of non-square / non-2-D shapes before any communication is decided by z3 over symbolic dimensions.',
+        note='packing only moves elements; shim indexing semantics validated against torch', ref='DESIGN.md 3/C14'),
+    'C15': dict(
+        text='For each enumerated conv geometry (kernels 1..3, strides 1..2, paddings 0..1 incl. asymmetric, sizes not divisible by the stride) '
+             'and N-d linear inputs the real helpers run on symbolic inputs; z3 proves patch extraction == index-formula im2col, A/G == second '
+             'moments of the unfolded rows, get_grad == sum of outer(gy row,[patch row|1]) for a weight.grad given by the backward-pass '
+             'specification, set/get round trips and advertised shapes.',
+        note='backward-pass specification validated against real autograd in setup; dilation 1, groups 1', ref='DESIGN.md 3/C15'),
+})
+
 NOT_YET = {
 }
 
